@@ -255,6 +255,16 @@ example : Domain13
     left
     simp [seedsPrev, hasEndpoint]⟩
 
+private def ex_r : Bundle :=
+  { tag := 1, src := ⟨7, 0⟩, ts := 900, seq := 0, dst := ⟨9, 0⟩, prev := some ⟨2, 0⟩, lifetime := 3600,
+    hop := none, age := none, delBlock := false, bsCopies := none }
+private def ex_s : Bundle :=
+  { tag := 3, src := ⟨1, 0⟩, ts := 901, seq := 0, dst := ⟨9, 0⟩, prev := none, lifetime := 3600,
+    hop := none, age := none, delBlock := false, bsCopies := none }
+
+/-- … and the tag condition of `Domain13t` is satisfiable as well (different bundles, different tags). -/
+example : ∀ a ∈ [ex_r, ex_s], ∀ b ∈ [ex_r, ex_s], a.tag = b.tag → a = b := by decide
+
 example :
     let c : Cfg := { self := 1, algo := .epidemic, mule := false, sensorNodes := [], sprayL := 3, bcast := ⟨999, 0⟩,
                      seqFirst := false, expiryNow := true, dtlsrFail := true, holdFix := true }
